@@ -248,6 +248,8 @@ func catchPanic(function func()) (err error) {
 				}
 				err = errors.New(uncaughtString(caught))
 				return
+			case interruptPanic:
+				panic(caught.value)
 			}
 			panic(caught)
 		}
@@ -262,6 +264,9 @@ func catchPanic(function func()) (err error) {
 func uncaughtString(value Value) (text string) {
 	defer func() {
 		if caught := recover(); caught != nil {
+			if interrupt, ok := caught.(interruptPanic); ok {
+				panic(interrupt.value)
+			}
 			if _, ok := caught.(*exception); !ok {
 				panic(caught)
 			}
